@@ -164,7 +164,7 @@ func init() {
 	parserJudges["C05"] = judgeC05
 	register(&Check{
 		ID:        "C05",
-		QuickSecs: 900, ThoroSecs: 900,
+		QuickSecs: 900, ThoroSecs: 3000,
 		Rule: "input-space exploration over definitions: all subsets of size 2-4 of the name pool {v, ve, ver, verbose, vex, x, é, ê, VE} and of the pool {info, infile, infinity-x, nanny} (names whose beginnings read as numbers) x all partitions of the subset into options (names of one block are aliases) x option kind {all bool, all string, alternating} x 3 modes x require-order on/off, " +
 			"each queried with every prefix of every name plus non-matching texts, in long and short spelling, at the root, inside a command that inherits the options and adds one of its own and inside a wrapper command (UnsetOptions + Pass) with two own names sharing a prefix, alone and after a token that sets another option; " +
 			"effect, CalledAs, ambiguity error text (sorted candidate list) and unknown-option error compared with the reference matcher; on ambiguity no option value may change; distinct_nontrivial = distinct in-domain cases",
